@@ -277,6 +277,13 @@ pub fn run(ctx: &RunCtx) -> Outcome {
         return o;
     }
     o.exhaustive = Some(format!("all trees with <= {} nodes over the common-syntax leaf/operator set x all texts over {{a,b,é,\\n,-}} of length <= 3", n));
+    // characters on the UTF-8 length-class boundaries
+    {
+        let small = space(&cfg, 3, false);
+        if !stage(ctx, &mut o, &plain, "common syntax N<=3 x UTF-8 edge texts", &small, &gen::edge_texts()) {
+            return o;
+        }
+    }
     // flags and case: bases N<=3 with an upper-case literal added
     let mut fcfg = gen::common_cfg();
     fcfg.leaves = vec![Lit('a'), Lit('B'), Any, Class(false, vec![('a', 'b')]), Class(true, vec![('A', 'A')]), Perl('w'), Assert(A::StartText), Assert(A::EndText), Assert(A::WordB), Lit('é'), Lit('\n')];
